@@ -6,12 +6,16 @@ from props import _ep as E
 ENV_BY_TIER = {"quick": {"NUMBA_DISABLE_JIT": "1"}, "thorough": {}}
 
 RULE = ("(a) tape cases: msprime tree sequences (haploid, diploid with unphased singletons, historical and "
-        "internal samples, stars incl. 25-60-leaf stars that push the scale below TINY) x mutation_rate x "
+        "internal samples, chains of locally unary nodes with allow_unary, stars incl. 25-60-leaf stars that push "
+        "the scale below TINY), 40% of them decorated by gen.exotic (extra node flag bits, renumbering of all "
+        "nodes, mutations above local roots, mutation-free sites, unknown mutation times, arbitrary allele states, "
+        "populations) x mutation_rate x "
         "max_shape (1.0001..1000, 60% small so that the cap and the scale vector are active) x min_step x "
         "regularise x 1-3 iterations, run through ExpectationPropagation.iterate with every approx projection "
         "recorded and replayed through the Gallina model; (b) random operation sequences (block/edge passes over "
         "random edge multisets, prior, _rescale_factors) called directly on the implementation; (c) real "
-        "tsdate.date(variational_gamma) calls with iterate() observed. A case is non-trivial when at least one "
+        "tsdate.date(variational_gamma) calls with iterate() observed (rescaling off by intervals=0 or iterations=0 / on, "
+        "match_segregating_sites both ways, numpy-typed option scalars on 30%). A case is non-trivial when at least one "
         "projection ran; distinct by content hash")
 ASSUME = ["the approx.*_projection results are replayed, not recomputed (the theorems hold for arbitrary projections)",
           "np.mean over fewer than 8 free roots is a left-to-right sum (cases with >= 8 unconstrained roots are "
@@ -132,13 +136,19 @@ def date_run(ctx, case):
 
     V.ExpectationPropagation.iterate = watched
     fit = None
+    def ty(x):    # numpy-typed scalars instead of Python ones on part of the calls
+        if not o.get("np_types"):
+            return x
+        return np.bool_(x) if isinstance(x, bool) else (np.int64(x) if isinstance(x, int) else np.float64(x))
     try:
         with np.errstate(all="ignore"):
-            _dts, fit = tsdate.date(ts, mutation_rate=o["mutation_rate"], method="variational_gamma",
-                                    max_iterations=o["iterations"], max_shape=o["max_shape"],
-                                    regularise_roots=o["regularise"], singletons_phased=o["singletons_phased"],
-                                    rescaling_intervals=o.get("rescaling_intervals", 0), return_fit=True,
-                                    progress=False)
+            _dts, fit = tsdate.date(ts, mutation_rate=ty(o["mutation_rate"]), method="variational_gamma",
+                                    max_iterations=ty(o["iterations"]), max_shape=ty(o["max_shape"]),
+                                    regularise_roots=ty(o["regularise"]), singletons_phased=ty(o["singletons_phased"]),
+                                    rescaling_intervals=ty(o.get("rescaling_intervals", 0)),
+                                    rescaling_iterations=ty(o.get("rescaling_iterations", 5)),
+                                    match_segregating_sites=ty(o.get("segsites", False)),
+                                    allow_unary=o.get("allow_unary", False), return_fit=True, progress=False)
     except Exception as e:   # rejected inputs / known rescaling assertions are other properties' business
         ctx.tally("date-raised-" + type(e).__name__)
     finally:
@@ -155,9 +165,14 @@ def date_run(ctx, case):
 
 
 def date_case(rng):
-    c = E.make_case(rng, kind=rng.choice(["plain", "diploid", "diploid", "historical", "internal", "dip-internal", "star"]))
-    c["opts"]["iterations"] = rng.choice([1, 2, 5])
-    c["opts"]["rescaling_intervals"] = rng.choice([0, 0, 5])
+    c = E.make_case(rng, kind=rng.choice(["plain", "diploid", "diploid", "historical", "internal", "dip-internal",
+                                            "star", "unary"]))
+    o = c["opts"]
+    o["iterations"] = rng.choice([1, 2, 5])
+    # the two ways of switching rescaling off (either count exactly 0) and on; both count arrays
+    o["rescaling_intervals"], o["rescaling_iterations"] = rng.choice([(0, 5), (0, 5), (5, 0), (5, 3), (1, 1)])
+    o["segsites"] = rng.random() < 0.4
+    o["np_types"] = rng.random() < 0.3
     return c
 
 
